@@ -599,5 +599,15 @@ def c12(run):
             rnd.shuffle(r)
             runs.append({"id": "perm%d_%d" % (i, v), "emb": emb_of(run, i + v), "facts": f + f[:1], "rules": r, "mf": 1000, "mi": 100, "queries": []})
             run.count(("perm", json.dumps(f), json.dumps(r)))
+    # seeded random programs (longer derivation chains), each in two further orders
+    for c in gen_cases(run, driver, "run"):
+        if c["mf"] != 1000 or c["mi"] != 100 or len(c["rules"]) < 2:
+            continue
+        for v in range(2):
+            f, r = list(c["facts"]), list(c["rules"])
+            rnd.shuffle(f)
+            rnd.shuffle(r)
+            runs.append(dict(c, id="%s_p%d" % (c["id"], v), facts=f, rules=r))
+            run.count(("permgen", c["id"], v))
     validate_dl(run, driver, [], runs, "C12 permuted program")
     run.sample({"permuted_program": dl_text("run", runs[len(runs) // 2])})
